@@ -115,7 +115,7 @@ def run(case, max_steps=120000):
     state = {'running': 0, 'n': 0, 'ready': False, 'foreign_done': 0, 'buf': None, 'main_returned': None,
              'driver_exc': None}
     nforeign = len(case.get('foreign') or ())
-    with World(schedule=case.get('sched'), trace=TRACE, modules=(A,), max_steps=max_steps) as w:
+    with World(schedule=case.get('sched'), trace=TRACE, modules=(A,), max_steps=max_steps, tie_seed=case.get('tie')) as w:
         sim = w.sim
 
         async def func(xs):
@@ -240,9 +240,8 @@ def run(case, max_steps=120000):
             got = delivered_now()
             rec['missing'] = sorted(set(rec['need']) - got)
 
-        async def driver(buf, loop, t0):
-            pend = []
-            for op in sorted(case['prog'], key=lambda o: o['at']):
+        async def run_ops(buf, loop, t0, ops, pend):
+            for op in sorted(ops, key=lambda o: o['at']):
                 d = t0 + op['at'] - loop.time()
                 if d > 0:
                     await aio.sleep(d)
@@ -253,11 +252,26 @@ def run(case, max_steps=120000):
                     # so nothing - not even the scheduled queue put - runs in between
                     await do_wait(buf, op['cancel'], 'owner')
                 elif op['op'] == 'wait':
-                    t = loop.create_task(do_wait(buf, op['cancel'], 'owner'))
+                    async def later(op=op):
+                        if op.get('sleep'):          # the waiting task is started now but calls wait() a while later
+                            await aio.sleep(op['sleep'])
+                        await do_wait(buf, op['cancel'], 'owner')
+                    t = loop.create_task(later())
                     w.keep.append(t)
                     pend.append(t)
                 else:
                     submit(buf, op, 'owner')
+
+        async def driver(buf, loop, t0):
+            pend = []
+            second = None
+            if case.get('prog2'):
+                # a second, independent sequence of operations on the same loop (another coroutine of the application)
+                second = loop.create_task(run_ops(buf, loop, t0, case['prog2'], pend))
+                w.keep.append(second)
+            await run_ops(buf, loop, t0, case['prog'], pend)
+            if second is not None:
+                await second
             for t in pend:
                 await t
             # One long sleep, not a poll: periodic wake-ups of the owner loop would mask a
@@ -318,7 +332,7 @@ def run(case, max_steps=120000):
                     state['foreign_done'] += 1
             return run_f
 
-        hz = 100.0 + (3 * (case['other']['at'] + case['other']['fdur']) if case.get('other') else 0) + 40 * (T + case['fdur']) + sum(o['at'] for o in case['prog']) + (case.get('shutdown') or 0) \
+        hz = 100.0 + (3 * (case['other']['at'] + case['other']['fdur']) if case.get('other') else 0) + 40 * (T + case['fdur']) + sum(o['at'] + o.get('sleep', 0) for o in case['prog'] + (case.get('prog2') or [])) + (case.get('shutdown') or 0) \
             + sum(o.get('gap', 0) for p in (case.get('foreign') or ()) for o in p)
 
         def watchdog():
